@@ -11,4 +11,5 @@ PROPERTY NoRepeat
 PROPERTY UsedNotHandedOut
 PROPERTY KeysPersist
 PROPERTY Refusals
+PROPERTY DeviationsAreViolations
 CHECK_DEADLOCK FALSE
